@@ -174,6 +174,10 @@ func c05GenTyped(g *Gen, typ string, depth int) c05Doc {
 					m[term] = fmt.Sprintf("PT%dM", secs/60)
 				}
 			}
+			if g.Chance(1, 3) { // a negative duration is a duration too
+				m[term] = "-" + m[term].(string)
+				secs = -secs
+			}
 			fv.SetInt(int64(secs) * int64(time.Second))
 		case f.Type.Kind() == reflect.Uint:
 			n := 1 + g.Intn(500)
